@@ -531,17 +531,17 @@ func (st *runState) conclude(tier string, kn map[string]known, start time.Time, 
 
 	// evidence
 	cov := map[string]any{
-		"evaluations":         a.Evaluations,
-		"distinct_nontrivial": nontrivial,
-		"rule":                p.Rule,
-		"samples":             a.Samples,
-		"cases":               a.Cases,
+		"evaluations":                      a.Evaluations,
+		"distinct_nontrivial":              nontrivial,
+		"rule":                             p.Rule,
+		"samples":                          a.Samples,
+		"cases":                            a.Cases,
 		"cases_skipped_outside_quantifier": a.Skips,
-		"counters":            a.Counters,
-		"known_finding_hits":  knownHits,
-		"passes":              passCases,
-		"worker_crashes":      st.crashes,
-		"hangs":               st.hangs,
+		"counters":                         a.Counters,
+		"known_finding_hits":               knownHits,
+		"passes":                           passCases,
+		"worker_crashes":                   st.crashes,
+		"hangs":                            st.hangs,
 	}
 	if len(a.Samples) == 0 {
 		cov["samples"] = []any{"(no sample recorded)"}
